@@ -59,6 +59,9 @@ def cases(tier, seed):
             for st in STATES:
                 for canon in (True, False):
                     yield {"family": "mps", "n": n, "dim": dim, "state": st, "canonical": canon, "seed": seed}
+                if st in ("ghz", "seeded") and n >= 3:
+                    # built from raw factors: no declared centre, and truncation settings that would change the state if they were applied
+                    yield {"family": "mps", "n": n, "dim": dim, "state": st, "canonical": "raw", "seed": seed}
     for pfp, pfn in itertools.product((0.0, 0.1, 0.5, 1.0), repeat=2):
         yield {"family": "readout", "p_false_pos": pfp, "p_false_neg": pfn, "tier": tier}
     for be in ("sv", "svnoise", "mps"):
@@ -160,11 +163,14 @@ def _mps(case):
 
     def make():
         st = m.MPS.from_state_amplitudes(eigenstates=eig, amplitudes=amps)
+        if case["canonical"] == "raw":
+            return m.MPS([f.clone() for f in st.factors], orthogonality_center=None, eigenstates=eig, num_gpus_to_use=0, max_bond_dim=1, precision=0.5)
         if not case["canonical"]:
             st.orthogonalize(n - 1)  # centre away from site 0: sample() has to re-centre
         return st
 
-    born = R.born(mps_to_vec(make().factors), n, dim)
+    dense_before = mps_to_vec(make().factors)
+    born = R.born(dense_before, n, dim)
     tot = sum(born.values())
     born = {k: p / tot for k, p in born.items()}
     paths_total = 0
@@ -173,6 +179,12 @@ def _mps(case):
     except Exception as e:
         return result(False, sig=f"mps|raises|{type(e).__name__}", msg=f"{label}: {type(e).__name__}: {str(e)[:300]}", outcome="raise")
     paths_total += paths
+    probe = make()
+    with seams.torch_multinomial(seams.ScriptedMultinomial(answer_fn=lambda pr, ns, k: [[int(np.flatnonzero(r > 1e-14 * r.sum())[0])] for r in pr.detach().numpy().astype(float)])):
+        probe.sample(num_shots=1)
+    moved = np.linalg.norm(mps_to_vec(probe.factors) - dense_before)
+    if moved > 1e-10:
+        return result(False, sig="mps|sample-changes-the-state", msg=f"{label}: sampling changed the represented state by {moved:.3e}", outcome="moved", states=paths_total, transitions=paths_total)
     dd = explore.dist_distance(dist, born)
     if dd > 1e-10 or abs(sum(dist.values()) - 1) > 1e-10:
         return result(False, sig=f"mps|distribution|dim{dim}", msg=f"{label}: exact sampling distribution {rnd(dist, 6)} != Born marginal {rnd(born, 6)} (max diff {dd:.2e}, mass {sum(dist.values())})", outcome="dist", states=paths_total, transitions=paths_total)
